@@ -494,6 +494,7 @@ RECURSIVE ValueOf(_, _, _)
 ValueOf(n, val, pk) ==
     LET N == Nodes[n] cl == Classify(n, val, <<>>, pk) F == Frame(n, <<>>, val, NoOb, "E", cl) IN
     CASE cl.ph = "leafok" -> cl.okv
+      [] cl.ph # "work" -> UnitRV                      \* a payload with a fault here has no value
       [] N.c \in {"vec", "arr", "tup"} -> RV("list", FALSE, 0, DZero, "", "", [i \in 1..Len(val.e) |-> ValueOf(Child(F, Ob("elem", i)).n, val.e[i], pk)])
       [] N.c \in {"hset", "bset"} -> RV("set", FALSE, 0, DZero, "", "", VSetAsSeq({ValueOf(N.kids[1], val.e[i], pk) : i \in 1..Len(val.e)}))
       [] N.c = "opt" -> RV("some", FALSE, 0, DZero, "", "", <<ValueOf(N.kids[1], val, pk)>>)
